@@ -32,6 +32,12 @@ mod c17;
 mod c17_io;
 mod c18;
 mod xinf;
+mod c18_arc;
+mod c18_fmt;
+mod c18_mat;
+mod c18_mdl;
+mod c18_pbc;
+mod c18_skel;
 
 use std::io::{BufRead, BufWriter, Write};
 
